@@ -104,3 +104,42 @@ func init() {
 		os.Exit(0)
 	}
 }
+
+func init() {
+	if os.Getenv("LUNGOCHECK_DBG") == "recflags" {
+		c, err := loadRepo("/repo", true)
+		if err != nil {
+			panic(err)
+		}
+		for _, fn := range c.repoFuncs() {
+			if fn.Parent() != nil {
+				continue
+			}
+			for pi, p := range fn.Params {
+				b, ok := p.Type().Underlying().(*types.Basic)
+				if !ok || b.Kind() != types.Bool {
+					continue
+				}
+				same, diff := 0, 0
+				for _, g := range withClosures(fn) {
+					allInstrs(g, func(in ssa.Instruction) {
+						if ci, ok := in.(ssa.CallInstruction); ok && ci.Common().StaticCallee() == fn {
+							a := ci.Common().Args[pi]
+							if a == ssa.Value(p) {
+								same++
+							} else if fv, ok := a.(*ssa.FreeVar); ok && fv.Name() == p.Name() {
+								same++
+							} else {
+								diff++
+							}
+						}
+					})
+				}
+				if same+diff > 0 {
+					fmt.Printf("%s param %s: unchanged at %d sites, changed at %d\n", funcName(fn), p.Name(), same, diff)
+				}
+			}
+		}
+		os.Exit(0)
+	}
+}
